@@ -32,12 +32,13 @@ def _c16_jobs(tier):
         # fault-free: <=3 sections, all 6 kinds, 3 contents, every cutting into <=4 payloads, stuffing subsets
         jobs += _sharded(M + ["--maxsec", 3, "--faults", "n", "--segs", "0", "--stuff", "2"], 16, dl)
         # <=2 sections: every fault (discontinuity / missing payload on every payload, 7 header corruptions on every section)
-        jobs += _sharded(M + ["--maxsec", 2, "--faults", "dmc", "--segs", "0", "--stuff", "2"], 16, dl)
+        jobs += _sharded(M + ["--maxsec", 2, "--faults", "dm", "--segs", "0", "--stuff", "2"], 6, dl)
+        jobs += _sharded(M + ["--maxsec", 2, "--contents", "dh", "--faults", "c", "--segs", "0", "--stuff", "2"], 8, dl)
         # <=2 sections fault-free with segmented payloads and other stuffing sizes
         jobs += _sharded(M + ["--maxsec", 2, "--faults", "n", "--segs", "1,2", "--stuff", "1,4"], 2, dl)
         # 3 sections with faults, <=3 payloads
-        jobs += _sharded(M + ["--maxsec", 3, "--maxcuts", 2, "--faults", "dm", "--segs", "0", "--stuff", "2"], 8, dl)
-        jobs += _sharded(M + ["--maxsec", 3, "--maxcuts", 2, "--kinds", "029s", "--faults", "c", "--segs", "0", "--stuff", "2"], 12, dl)
+        jobs += _sharded(M + ["--maxsec", 3, "--maxcuts", 2, "--kinds", "029s", "--faults", "dm", "--segs", "0", "--stuff", "2"], 4, dl)
+        jobs += _sharded(M + ["--maxsec", 3, "--maxcuts", 2, "--kinds", "05s", "--faults", "c", "--segs", "0", "--stuff", "2"], 6, dl)
         # one maximal section (section_length 4093), cuts around its boundaries
         jobs += _sharded(M + ["--maxsec", 1, "--kinds", "0", "--long", "Ll", "--faults", "ndmc", "--segs", "0,2", "--stuff", "2"], 2, dl)
     else:
@@ -87,7 +88,7 @@ CHECK = {
             "transitions = buffers fed; non-trivial = merge cases in which a section crosses a payload boundary, split cases in which a section matches >= 1 output, "
             "join cases in which >= 2 inputs delivered sections",
     "bounds": {"quick": "merge: <=3 sections x 6 kinds x 3 contents x all cuttings into <=4 payloads x stuffing subsets (fault-free); <=2 sections with every discontinuity / missing payload / "
-                        "7 header corruptions; 3 sections with faults cut into <=3 payloads (corruptions on kinds 0,2,9,9s); one 4093-octet section; 2-segment payloads on <=2 sections. "
+                        "7 header corruptions (contents distinct and look-alike); 3 sections with faults cut into <=3 payloads (discontinuity/missing on kinds 0,2,9,9s; corruptions on kinds 0,5,9s); one 4093-octet section; 2-segment payloads on <=2 sections. "
                         "split: 1, 2, 3 outputs x all 64 normalised filter/mask pairs over 2 octets x 9 leading-octet types x 3 segmentations; op sequences to depth 5 over 7 filters. "
                         "join: op sequences to depth 7, <=3 inputs, <=4 sections",
                "thorough": "merge: all faults on <=3 sections x <=4 payloads; 3 segmentations and stuffing sizes 1 and 4; one 4093-octet section with <=1 (all faults) or 2 (kinds 0,9) short ones, cuts near "
